@@ -72,14 +72,18 @@ Record witer := mkW { w_cur : key; w_keys : list key; w_src : layer; w_prio : na
      index := sort.Search(len(list), func(i) { return seek <= list[i] }); keys: list[index:]
    newDiskAccountIterator: db.NewIterator(prefix, TrimRightZeroes(seek)) — keys >= seek,
    modelled the same way on the sorted disk key list. *)
-Definition new_iter (seek : key) (l : layer) (prio : nat) : res witer :=
-  let ks := key_list l in
+Definition new_iter_from (seek : key) (ks : list key) (l : layer) (prio : nat) : res witer :=
   match sort_search (length ks)
           (fun i => match nth_error ks i with
                     | Some k => Some (N.leb seek k) | None => None end) with
   | Err e => Err e
   | Ok (index, _) => Ok (mkW 0%N (skipn index ks) l prio)
   end.
+
+(* the key list is the state set's sorted list (PathDB/IterHist.v models its
+   cache explicitly and passes the possibly cached list to [new_iter_from]) *)
+Definition new_iter (seek : key) (l : layer) (prio : nat) : res witer :=
+  new_iter_from seek (key_list l) l prio.
 
 (* diffAccountIterator.Next: curHash = keys[0]; keys = keys[1:]  ([None] = returns false) *)
 Definition advance (x : witer) : option witer :=
